@@ -11,6 +11,9 @@ use tokio::io::{AsyncReadExt, AsyncWriteExt};
 use tokio::net::TcpStream;
 use tokio::time::{Duration, timeout};
 
+/// Destination name that selects the UDP-over-TCP relay (sing-box udp-over-tcp v2, the format `udp_proxy` implements)
+const UDP_OVER_TCP_MAGIC_ADDR: &str = "sp.v2.udp-over-tcp.arpa";
+
 /// Handler trait for processing new streams
 pub trait StreamHandler: Send + Sync {
     /// Handle a new stream
@@ -69,8 +72,9 @@ impl StreamHandler for TcpProxyHandler {
                 destination.port
             );
 
-            // Check if this is a UDP over TCP request
-            if destination.addr.contains("udp-over-tcp.arpa") {
+            // Check if this is a UDP over TCP request: only the reserved name itself selects the relay - a host
+            // name that merely contains it is an ordinary TCP destination
+            if destination.addr == UDP_OVER_TCP_MAGIC_ADDR {
                 tracing::debug!("[Proxy] Detected UDP over TCP request");
                 if peer_version >= 2 {
                     tracing::debug!(
